@@ -226,6 +226,15 @@ class HoistLiterals(NodeVisitor):
     def visit_NameConstant(self, node):
         self.get_binding(node.value, node).add_reference(node)
 
+    def visit_TypeVar(self, node):
+        # The elements of a tuple of constraints must stay literals, the interpreter looks at them to tell constraints from a bound
+
+        if node.bound is not None and not isinstance(node.bound, ast.Tuple):
+            self.visit(node.bound)
+
+        if getattr(node, 'default_value', None) is not None:
+            self.visit(node.default_value)
+
     def visit_match_case(self, node):
         # Can't hoist literals in a pattern
 
